@@ -360,6 +360,9 @@ def run_family(case):
     def check(label, nof, want, down, up):
         nonlocal n
         n += 1
+        if not isinstance(nof, NumberOrderedForm):
+            # reflected operations without a dedicated method give a plain sympy expression containing the form
+            nof = NumberOrderedForm.from_expr(sympy.sympify(nof).doit(), modes)
         msg = cmp_on_interior(sp, sp.nof_matrix(nof), want, down, up)
         if msg:
             V.append(f"modes {ms}: {label} {msg}")
@@ -380,6 +383,39 @@ def run_family(case):
         back = X.as_expr()
         check(f"from_expr(as_expr({e}))", NumberOrderedForm.from_expr(back, modes), mx, dx, ux)
         check(f"model of as_expr({e})", X, sp.expr_matrix(back), dx, ux)
+        # the same expression converted with its own (auto-detected, possibly smaller) operator list
+        Xa = NumberOrderedForm.from_expr(e)
+        check(f"from_expr({e}) with auto-detected operators", Xa, mx, dx, ux)
+        # reflected operations with plain numbers and plain operator expressions, doit / simplify / applyfunc / subs
+        check(f"3 + ({e})", 3 + X, 3 * np.eye(sp.dim) + mx, dx, ux)
+        check(f"({e}) - 3", X - 3, mx - 3 * np.eye(sp.dim), dx, ux)
+        check(f"(I/2) - ({e})", sympy.I / 2 - X, 0.5j * np.eye(sp.dim) - mx, dx, ux)
+        check(f"({e}).doit()", NumberOrderedForm.from_expr(X.doit(), modes), mx, dx, ux)
+        check(f"simplify({e})", X.simplify(), mx, dx, ux)
+        check(f"({e}).applyfunc(expand)", X.applyfunc(sympy.expand), mx, dx, ux)
+        check(f"({e}).applyfunc(c -> 2c)", X.applyfunc(lambda c: 2 * c), 2 * mx, dx, ux)
+        if X.free_symbols & {tsym, usym}:
+            sub = {tsym: sympy.Rational(2, 3), usym: sympy.Rational(1, 4) - sympy.I}
+            old_subs, sp.subs = sp.subs, sub
+            try:
+                check(f"({e}).subs(numbers)", X.subs(sub), sp.expr_matrix(e), dx, ux)
+            finally:
+                sp.subs = old_subs
+        # predicates
+        n += 1
+        idx_ = sp.interior(dx, ux)
+        offd = mx[:, idx_].copy()
+        offd[idx_, np.arange(idx_.size)] = 0
+        conserving = bool(np.abs(offd).max(initial=0) < 1e-12)  # diagonal in the occupation-number basis
+        if bool(X.is_particle_conserving()) != conserving:
+            V.append(f"modes {ms}: is_particle_conserving({e}) is {X.is_particle_conserving()}")
+        n += 1
+        diff0 = X - NumberOrderedForm.from_expr(back, modes)
+        if diff0.is_zero is False or np.abs(sp.nof_matrix(diff0)).max() > 1e-9:
+            V.append(f"modes {ms}: ({e}) - from_expr(as_expr(.)) is not zero: {diff0}")
+        n += 1
+        if (X == NumberOrderedForm.from_expr(back, modes)) is False or (X == X + 1) is True:
+            V.append(f"modes {ms}: == is inconsistent for {e}")
         for j, e2 in enumerate(base):
             if j <= i:
                 continue
@@ -393,5 +429,12 @@ def run_family(case):
             check(f"({e}) * ({e2})", X * Y, mx @ my, ds, us)
             check(f"adjoint(({e}) * ({e2}))", (X * Y).adjoint(), my.conj().T @ mx.conj().T, us, ds)
             check(f"({e}) * plain expression ({e2})", X * e2, mx @ my, ds, us)
+            check(f"plain expression ({e}) * ({e2})", e * Y, mx @ my, ds, us)
+            check(f"plain expression ({e}) + ({e2})", e + Y, mx + my, dm, um)
+            check(f"({e}) - plain expression ({e2})", X - e2, mx - my, dm, um)
+            Ya = NumberOrderedForm.from_expr(e2)  # operator lists of the two factors may differ
+            check(f"({e}) * ({e2}) with separately detected operators", Xa * Ya, mx @ my, ds, us)
+            check(f"({e}) + ({e2}) with separately detected operators", Xa + Ya, mx + my, dm, um)
+            check(f"(({e}) + ({e2}))**2", (X + Y) ** 2, (mx + my) @ (mx + my), [2 * v for v in dm], [2 * v for v in um])
             check(f"commutator [{e}, {e2}]", X * Y - Y * X, mx @ my - my @ mx, ds, us)
     return V, dict(products_checked=n), True
